@@ -91,7 +91,7 @@ TypeChecker::TypeChecker(SemanticModel* semaModel, const SyntaxTree* tree)
     , strLitTy_(
           semaModel_->keepType(
               std::unique_ptr<ArrayType>(new ArrayType(
-                  semaModel->compilation()->canonicalBasicType(BasicTypeKind::Char_U)))))
+                  semaModel->compilation()->canonicalBasicType(BasicTypeKind::Char)))))
     , u8StrLitTy_(strLitTy_)
     , uStrLitTy_(semaModel_->keepType(std::unique_ptr<ArrayType>(new ArrayType(char16Ty_))))
     , UStrLitTy_(semaModel_->keepType(std::unique_ptr<ArrayType>(new ArrayType(char32Ty_))))
